@@ -42,8 +42,9 @@ struct Val
                 return false;
             if (fn == FN_ATAN2 && x == 0 && y == 0)
                 return false;
-            if (fn == FN_POW && x == 0 && y < 0)
-                return false; // a pole: no exact result exists, so nothing is claimed (sign of the infinity included)
+            if (fn == FN_POW && x == 0 && y <= 0)
+                return false; // 0^negative is a pole and 0^0 has no exact mathematical value: nothing is claimed there
+                              // (C12 likewise states pow(x,0) = 1 for non-zero x only)
             if (fn == FN_HYPOT)
             {
                 ld xx = (ld)x * x, yy = (ld)y * y, lo = 4 * (ld)FT<T>::MINN, hi = (ld)FT<T>::MAXN / 4;
@@ -176,7 +177,7 @@ static void value_block(Stats& S, const char* prop, int fn, const T* x, const T*
                     st.argmax = hexT(x[i]) + (y ? "," + hexT(yy) : "");
                 }
                 if (why)
-                    viol(st, classify<T>(jfn, x[i], yy), [&] { return wit<T>(jfn, x[i], yy, o[i], r[i], err, bnd, why, layout); });
+                    viol(st, classify<T>(jfn, x[i], yy, err), [&] { return wit<T>(jfn, x[i], yy, o[i], r[i], err, bnd, why, layout); });
                 else if (st.samples.size() < 2 && (i % 977) == 13)
                     st.samples.push_back(wit<T>(jfn, x[i], yy, o[i], r[i], err, bnd, "ok", layout));
             }
